@@ -403,6 +403,9 @@ func checkC07(c *Ctx) {
 	nw := c.Pick(3000, 60000)
 	for i := 0; i < nw; i++ {
 		w := &wildGen{r: rand.New(rand.NewSource(c.Seed*9000011 + int64(i))), names: []string{"a", "b", "self", "..", "X", "info", "println"}}
+		if i%3 == 1 { // a third of the programs also use the names of extension functions and root identifiers, as values and callees
+			w.names = append(w.names, "min", "max", "int", "join", "split", "runes", "round", "sqrt", "trim", "abs", "keys", "sprintf", "type", "json", "str", "printf", "format", "base64", "regexp", "regsub", "width", "pow", "unjson", "PI", "NaN")
+		}
 		prog := append([]any{nAsg(false, nId("a"), w.expr(1)), nAsg(false, nId("b"), w.expr(1))}, w.block(3)...)
 		add("wild", renderProgram(prog))
 	}
